@@ -257,7 +257,11 @@ def run(ctx):
     filt_bad = PU.stmt('%s = %s[%s > 0]' % (p0, p0, p0)) or PU.stmt('V_x = %s[%s > 0]' % (p0, p0)) or PU.stmt('%s = %s[%s >= 1]' % (p0, p0, p0))
     rvs = [x for _, x in returned(un)]
     nz = any(Pat().any(['np.nonzero(np.bincount(ANY))[0]', 'np.flatnonzero(np.bincount(ANY))', 'np.where(np.bincount(ANY))[0]', 'np.nonzero(np.bincount(ANY) > 0)[0]', 'np.unique(ANY)'], x) for x in rvs)
-    if filt_good is not None and nz:
+    lost = [x for f_ in repo.transparent_closure(un) for x in q.dropped_accumulations(f_)]
+    if lost:
+        ctx.violated('C07.A3', un, lost[0][1], '_unique accumulates the counts piece by piece in `%s`, and `%s` replaces the accumulated table by the table of one piece: the ids '
+                     'counted so far and absent from that piece are dropped from the result' % (lost[0][2], unparse(lost[0][1])))
+    elif filt_good is not None and nz:
         ctx.holds('C07.A3', un, '_unique = increasing ids with a non-zero count among the non-negative entries', filt_good)
     elif filt_bad is not None:
         ctx.violated('C07.A3', un, filt_bad, '_unique keeps `%s`: id 0 is a valid cluster id and must be kept (only negative ids are dropped)' % unparse(filt_bad.value))
